@@ -20,12 +20,25 @@ CHECKS = {
         "BRIDGE-DROPPED in the evidence). Tie: differential correspondence through LT.set_value_in_millis, the BasicHeader "
         "API (integer and fractional ms), packets emitted by a real Router for every transport type incl. GUC released by "
         "the location service and one secured SHB, all five indication sites x a sweep of LT octets, receiver guard pairs "
-        "(thorough: exhaustive 0..7 000 000 ms, all 256 octets, all hop limits).",
+        "(thorough: exhaustive 0..7 000 000 ms, all 256 octets, all hop limits). Round 5: `originate` models the assembly "
+        "of the basic header by a source operation (built once from the RESOLVED hop limit; the itsGnSecurity=ENABLED "
+        "branches of SHB/GBC/GAC change NH only): for every request/default/configuration RHL (in the clear) = MHL "
+        "(inside the envelope) = the Spec's budget and the LT octet is the demanded one (originate_hops_meet_spec, "
+        "originate_lifetime_meets_spec, security_changes_nh_only); for EVERY serialisation of the constructor calls of any "
+        "number of originating threads each call's lifetime honours its own request (every_schedule_honours_each_request), "
+        "resting on the regenerated fact that no function of basic_header.py writes class/module-level state "
+        "(constructors_write_no_shared_state; negative model + witness memo_race_witness shows why), and on "
+        "one_basic_header_per_operation / no_raw_request_hop_limit (ast pass over router.py). Tie: security-enabled real "
+        "Router with a real SignService, MHL parsed independently out of the signed payload, every requested hop limit "
+        "0..255 x profiles x lifetimes; 2-3 originating threads under harness/dsched.py at bytecode granularity of "
+        "basic_header.py (pre-emption bound 1, exhaustive for the two-request scenarios).",
    note="Trusted: Lean kernel (axioms propext/Classical.choice/Quot.sound only), the hand transcription of the standard into "
         "LTSpec.lean and the Python oracle, the harness; the float glue int(s*1000) is exercised not proved. Modelled, not "
         "verified: the hop-limit / lifetime SELECTION inside the Router (srcHops, srcLifetime, indRemainingS are hand-written "
         "3-line models tied by correspondence on emitted bytes / indications only - no AST extraction); the hop guard for "
-        "secured frames (reached after the verify service); TSB multi-hop origination does not exist in the code "
+        "secured frames (reached after the verify service; three secured deliveries are judged); schedules of originating "
+        "threads beyond pre-emption bound 1 and shared state outside basic_header.py (sampled, not enumerated); "
+        "TSB multi-hop origination does not exist in the code "
         "(NotImplementedError). Interface convention, not a finding: a multi-hop request cannot ask for hop limit 1 "
         "(sent with itsGnDefaultHopLimit; the property text says so). Known finding C20-KF1 (>= 1 000 000 ms -> 0) is "
         "pinned by the repo's own unit test.",
